@@ -121,13 +121,21 @@ func (p *prop) runModule(c core.Case, w *core.Worker, res *core.Result, r *rand.
 	m.MustWrite("_deps/dep/y/rand/r.go", "package rand\n\ntype Thing struct{}\n")
 	m.MustWrite("_deps/dep/x/model/m.go", "package model\n\ntype Thing struct{}\n")
 	m.MustWrite("_deps/dep/y/model/m.go", "package model\n\ntype Thing struct{}\n")
-	tags := []string{"+gengo:state", "+gengo:proto", "+gengo:runtimedoc", "+gengo:deepcopy"}
+	// package-level tags differ per package on purpose: a tag of an earlier package must not enable (or
+	// parameterise) a generator in a later one; the run also passes non-nil Globals
+	tagSets := [][]string{
+		{"+gengo:state", "+gengo:proto", "+gengo:runtimedoc", "+gengo:deepcopy", "+gengo:state:opt=p1"},
+		{"+gengo:state", "+gengo:runtimedoc"},
+		{"+gengo:proto", "+gengo:deepcopy", "+gengo:state:opt=p3"},
+		{"+gengo:state", "+gengo:proto", "+gengo:runtimedoc", "+gengo:deepcopy"},
+	}
+	globals := map[string][]string{"gengo:unrelated": {"x"}, "gengo:other:opt": {"g"}}
 	dirs := []string{"p1", "p2", "p3", "p4"}
 	// p4 imports p1..p3 so that an All run from p4 pulls the others in
 	state := specgen.GenSpec{Name: "state", Pkg: map[string]specgen.Behav{}, Def: specgen.Behav{Mode: "stateful"}}
 	perm := r.Perm(len(importSets))
 	for i, d := range dirs {
-		pk := layout.Pkg{Dir: d, Name: d, Types: []string{"Shared1", "Shared2", fmt.Sprintf("Own%d", i)}, Tags: tags}
+		pk := layout.Pkg{Dir: d, Name: d, Types: []string{"Shared1", "Shared2", fmt.Sprintf("Own%d", i)}, Tags: tagSets[i]}
 		if d == "p4" {
 			pk.Imports = []string{mod + "/p1", mod + "/p2", mod + "/p3"}
 		}
@@ -175,7 +183,7 @@ func (p *prop) runModule(c core.Case, w *core.Worker, res *core.Result, r *rand.
 	}
 	run := func(entries []string, all bool, child bool) obs {
 		mm := restore()
-		args := specgen.Args{Entrypoint: entries, OutputFileBaseName: "zz_generated", All: all}
+		args := specgen.Args{Entrypoint: entries, OutputFileBaseName: "zz_generated", All: all, Globals: globals}
 		var rr specgen.Result
 		if child {
 			// a fresh process: no process-global state of earlier runs can mask or fake a difference
@@ -212,7 +220,7 @@ func (p *prop) runModule(c core.Case, w *core.Worker, res *core.Result, r *rand.
 			res.Fail("execute", "execute-error", "Execute failed for "+d+" alone: "+clip(o.err, 800), nil)
 			return
 		}
-		if len(o.files[d]) < 3 {
+		if len(o.files[d]) < 2 {
 			res.Inconclusive = append(res.Inconclusive, fmt.Sprintf("package %s alone produced only %d files", d, len(o.files[d])))
 		}
 		alone[d] = o.files[d]
